@@ -14,10 +14,16 @@ import (
 )
 
 type verifMock struct {
-	cmds []string
+	cmds   []string
+	cancel context.CancelFunc // the call's context ends once the bot has resigned (it then waits for exactly that)
 }
 
-func (m *verifMock) SendCommand(args ...string) { m.cmds = append(m.cmds, strings.Join(args, " ")) }
+func (m *verifMock) SendCommand(args ...string) {
+	m.cmds = append(m.cmds, strings.Join(args, " "))
+	if len(args) > 0 && args[len(args)-1] == "Resign" && m.cancel != nil {
+		m.cancel()
+	}
+}
 func (m *verifMock) Recv() <-chan string        { return nil }
 func (m *verifMock) Error() error               { return nil }
 func (m *verifMock) Shutdown()                  {}
@@ -25,23 +31,27 @@ func (m *verifMock) Shutdown()                  {}
 type verifStub struct {
 	move   tak.Move
 	called bool
+	cancel context.CancelFunc // ... or once the searching player has answered (no think-time floor in the harness)
 }
 
 func (s *verifStub) GetMove(ctx context.Context, p *tak.Position) tak.Move {
 	s.called = true
+	if s.cancel != nil {
+		s.cancel()
+	}
 	return s.move
 }
 
 // VerifFPA drives the real Friendly.GetMove with a given rule: a mock server connection, a stub
-// in place of the searching player (it answers with a move chosen by the caller), and an already
-// cancelled context (so that the think-time floor and the resignation wait return at once).
+// in place of the searching player (it answers with a move chosen by the caller), and a context that
+// is live on entry and ends when the bot resigns or the searching player answers (so that the
+// resignation wait and the think-time floor return at once).
 type VerifFPA struct {
 	F    *Friendly
 	G    *bot.Game
 	Rule FPARule
 	mock *verifMock
 	stub *verifStub
-	ctx  context.Context
 }
 
 func VerifNewRule(variant string) FPARule {
@@ -87,9 +97,7 @@ func VerifNewFPA(variant string, color tak.Color, size int) *VerifFPA {
 	}
 	g := &bot.Game{ID: "1", GameStr: "Game#1", Opponent: "opponent", Color: color, Size: size}
 	f.g = g
-	ctx, cancel := context.WithCancel(context.Background())
-	cancel()
-	v := &VerifFPA{F: f, G: g, Rule: rule, mock: mock, stub: stub, ctx: ctx}
+	v := &VerifFPA{F: f, G: g, Rule: rule, mock: mock, stub: stub}
 	p := tak.New(f.Config(size))
 	g.Positions = append(g.Positions, p)
 	return v
@@ -103,7 +111,10 @@ func (v *VerifFPA) Step(choice tak.Move) (m tak.Move, searched bool, resigned bo
 	v.stub.called = false
 	v.mock.cmds = nil
 	p := v.G.Positions[len(v.G.Positions)-1]
-	m = v.F.GetMove(v.ctx, p, 0, 0)
+	ctx, cancel := context.WithCancel(context.Background())
+	defer cancel()
+	v.mock.cancel, v.stub.cancel = cancel, cancel
+	m = v.F.GetMove(ctx, p, 0, 0)
 	for _, c := range v.mock.cmds {
 		if strings.HasSuffix(c, " Resign") {
 			resigned = true
